@@ -64,7 +64,7 @@ def macroStep (h : Pipe.Host) (tok : String) : Option Pipe.Host :=
   | ("failR", some k) => (h.step (.fail k)).map (autoStop · fuel)
   | ("err", some k) => h.step (.err k)
   | ("pick", none) => if h.cur.isNone then none else h.step .pick
-  | ("burst", none) =>   -- 32 fill() calls at once: all pass the first check, then take the write lock one by one
+  | ("burst", none) =>   -- several fill() calls at once (32 in the model): all pass the first check, then take the write lock one by one
       if h.cur.isNone then none else some (repeatStep (repeatStep h .fillCheck 32) .fillGo 32)
   | ("up", none) => h.step .up
   | ("down", none) => if h.cur.isNone then none else h.step .down
